@@ -11,7 +11,7 @@ GATE-10 the fields the visited-set key compares beyond those the expansion uses 
 PROV-1  the amount by which group teardown lowers a member's count derives from that member's traced count
 """
 from interp import DEAD, Engine, counter_read, iter_table
-from expr import show, mentions, is_const, mk_field, mk_deref, table_of, box_part, children
+from expr import show, mentions, is_const, mk_field, mk_deref, mk_ref, table_of, box_part, children
 from rules_ts import add, rem, sub, is_elem_box
 
 LINK = "cactusref::link::Link"
@@ -88,6 +88,180 @@ def iter_source(it):
     return None
 
 
+def iter_base(it):
+    """The source iterator expression underneath the core::iter adaptors of `it`."""
+    e = it
+    n = 0
+    while isinstance(e, tuple) and n < 16:
+        n += 1
+        if e[0] == "ref":
+            e = e[1]
+            continue
+        if e[0] == "call" and e[2].startswith("core::iter::") and e[2] != "core::iter::IntoIterator::into_iter" and e[3]:
+            e = e[3][0]
+            continue
+        if e[0] == "call" and e[2] == "core::iter::IntoIterator::into_iter" and e[3]:
+            a = e[3][0]
+            inner = a[1] if a[0] == "ref" else a
+            if inner[0] == "call" and inner[2].startswith("core::iter::") and inner[2] != "core::iter::IntoIterator::into_iter":
+                e = a
+                continue
+        return e
+    return e
+
+
+PASS_THROUGH = ("filter", "take_while", "skip_while", "inspect", "peekable", "fuse", "by_ref", "skip", "take", "step_by", "chain")
+
+
+def adapted_elem(closures, nextcall):
+    """Element delivered by `next` on an adapted hash iterator, expressed over the element U of the
+    underlying iterator (so that `for (k, v) in map.iter()`, `map.keys().copied()`, `map.iter().map(f)`
+    name the same things the same way).  Returns (R, U, changed) or None."""
+    it = nextcall[3][0]
+    src = iter_source(it)
+    if src is None or src[0] not in ("map", "table"):
+        return None
+    base = iter_base(it)
+    U = mk_field(("variant", ("call", nextcall[1], "core::iter::Iterator::next", (mk_ref(base),)), "Some", 1), "0", "")
+    x = U
+    changed = False
+    m = src[2]
+    if m in ("keys", "into_keys"):
+        x = mk_field(U, "0", "")
+        changed = True
+    elif m in ("values", "into_values", "values_mut"):
+        x = mk_field(U, "1", "")
+        changed = True
+    for name, cargs in reversed(src[-1]):
+        if name in ("copied", "cloned"):
+            x = mk_deref(x)
+            changed = True
+        elif name == "map" and cargs:
+            cl = closures.run(cargs[0], params={2: x})
+            if cl is None or cl["effects"] or len(cl["returns"]) != 1:
+                return None
+            x = cl["returns"][0]
+            changed = True
+        elif name in PASS_THROUGH:
+            continue
+        else:
+            return None
+    return x, U, changed
+
+
+ALL_KINDS = frozenset(("0", "1", "2"))
+
+
+def filter_kinds(closures, closure, x):
+    """Kinds of link `x` that the filter predicate `closure` can let through, or None if the predicate looks
+    at anything but the link's kind (then it may hide entries of every kind)."""
+    cl = closures.run(closure, params={2: ("ref", x)})
+    if cl is None or cl["effects"]:
+        return None
+    K = mk_field(x, "kind", LINK)
+    admitted = set()
+    for pcs, ret, vf in cl["vpaths"]:
+        kinds = set(ALL_KINDS)
+        for e, v in vf:
+            if e == K:
+                kinds &= {v}
+            else:
+                return None
+        for c, truth in pcs:
+            if c[0] == "bin" and c[1] in ("Eq", "Ne") and c[2] == ("discr", K) and is_const(c[3]):
+                same = (c[1] == "Eq") == truth
+                kinds = (kinds & {c[3][1]}) if same else (kinds - {c[3][1]})
+            else:
+                return None
+        if is_const(ret):
+            if ret[1] == "1":
+                admitted |= kinds
+            continue
+        r, neg = ret, False
+        if r[0] == "un" and r[1] == "Not":
+            r, neg = r[2], True
+        if r[0] == "bin" and r[1] in ("Eq", "Ne") and r[2] == ("discr", K) and is_const(r[3]):
+            same = (r[1] == "Eq") != neg
+            admitted |= (kinds & {r[3][1]}) if same else (kinds - {r[3][1]})
+            continue
+        return None
+    return frozenset(admitted)
+
+
+def loop_kinds(closures, nextcall):
+    """(admitted kinds, problem) for a loop over a link table driven by `nextcall`."""
+    src = iter_source(nextcall[3][0])
+    ae = adapted_elem(closures, nextcall)
+    kinds = ALL_KINDS
+    for idx, (name, cargs) in enumerate(src[-1]):
+        if name == "filter" and cargs:
+            # element seen by this filter = element produced by the adaptors below it
+            below = ("call", nextcall[1], "core::iter::Iterator::next", (_strip_outer(nextcall[3][0], idx + 1),))
+            ae_b = adapted_elem(closures, below)
+            x = ae_b[0] if ae_b is not None else None
+            if x is None:
+                return None, "filter"
+            # a filter over (k, v) pairs or over keys: find the link
+            link = x
+            fk = filter_kinds(closures, cargs[0], link)
+            if fk is None and x[0] != "agg":
+                fk = filter_kinds_pair(closures, cargs[0], x)
+            if fk is None:
+                return None, "filter"
+            kinds = kinds & fk
+        elif name in ("take", "skip", "step_by", "take_while", "skip_while"):
+            return None, name
+    return kinds, None
+
+
+def filter_kinds_pair(closures, closure, x):
+    """Same as filter_kinds for predicates over (&Link, &count) pairs."""
+    cl = closures.run(closure, params={2: ("ref", x)})
+    if cl is None or cl["effects"]:
+        return None
+    link = mk_deref(mk_field(x, "0", ""))
+    K = mk_field(link, "kind", LINK)
+    admitted = set()
+    for pcs, ret, vf in cl["vpaths"]:
+        kinds = set(ALL_KINDS)
+        for e, v in vf:
+            if e == K:
+                kinds &= {v}
+            else:
+                return None
+        for c, truth in pcs:
+            if c[0] == "bin" and c[1] in ("Eq", "Ne") and c[2] == ("discr", K) and is_const(c[3]):
+                same = (c[1] == "Eq") == truth
+                kinds = (kinds & {c[3][1]}) if same else (kinds - {c[3][1]})
+            else:
+                return None
+        if is_const(ret):
+            if ret[1] == "1":
+                admitted |= kinds
+            continue
+        return None
+    return frozenset(admitted)
+
+
+def _strip_outer(it, n):
+    """Iterator expression with its n outermost core::iter adaptors removed."""
+    e = it
+    k = 0
+    while k < n and isinstance(e, tuple):
+        if e[0] == "ref":
+            e = e[1]
+            continue
+        if e[0] == "call" and e[2].startswith("core::iter::") and e[3]:
+            if e[2] == "core::iter::IntoIterator::into_iter":
+                e = e[3][0]
+                continue
+            e = e[3][0]
+            k += 1
+            continue
+        break
+    return mk_ref(e) if e[0] != "ref" else e
+
+
 class ClosureCache:
     def __init__(self, program):
         self.program = program
@@ -97,8 +271,14 @@ class ClosureCache:
         """Interpret the body of a closure with its environment bound to the aggregate built at
         the call site.  Returns a dict: returns=[expr], effects=[Ev], stores=[Ev]."""
         path = closure_path(closure_expr)
+        fn_item = False
         if path is None:
-            return None
+            ce = closure_expr[1] if closure_expr[0] == "ref" else closure_expr
+            if ce[0] == "fn" and self.program.facts.fn(ce[1]) is not None:
+                # a function of the crate used as the predicate / mapper: its first parameter is the item
+                path, fn_item = ce[1], True
+            else:
+                return None
         agg = closure_expr[1] if closure_expr[0] == "ref" else closure_expr
         key = (path, agg, tuple(sorted((params or {}).items())))
         if key in self.cache:
@@ -108,15 +288,19 @@ class ClosureCache:
             return None
         g = self.program.inlined(fn)
         rec = Recorder()
-        pe = {1: agg}
-        # closures take their environment by value, by & or by &mut: bind both views
-        envty = g.locals[1]["ty"] if len(g.locals) > 1 else {}
-        if envty.get("k") in ("ref", "refmut"):
-            pe = {1: ("ref", agg)}
+        if fn_item:
+            pe = {k - 1: v for k, v in (params or {}).items()}
+            params = None
+        else:
+            pe = {1: agg}
+            # closures take their environment by value, by & or by &mut: bind both views
+            envty = g.locals[1]["ty"] if len(g.locals) > 1 else {}
+            if envty.get("k") in ("ref", "refmut"):
+                pe = {1: ("ref", agg)}
         if params:
             pe.update(params)
         eng = Engine(g, [rec], param_exprs=pe, name=path, max_states=20000, record_pc=True).run()
-        out = {"paths": rec.paths, "returns": rec.returns, "effects": rec.effects, "stores": rec.stores, "reads": rec.reads, "truncated": eng.truncated, "path": path,
+        out = {"paths": rec.paths, "vpaths": rec.vpaths, "returns": rec.returns, "effects": rec.effects, "stores": rec.stores, "reads": rec.reads, "truncated": eng.truncated, "path": path,
                "where": "%s:%s" % (fn.file, fn.line)}
         self.cache[key] = out
         return out
@@ -131,6 +315,7 @@ class Recorder:
         self.stores = []
         self.reads = []
         self.paths = []
+        self.vpaths = []
 
     def on_event(self, eng, ev, st):
         if ev.kind == "return":
@@ -139,6 +324,9 @@ class Recorder:
             pcs = tuple(sorted(((f[1], f[2]) for f in st.flags if f[0] == "pc"), key=repr))
             if (pcs, ev.value) not in self.paths:
                 self.paths.append((pcs, ev.value))
+            vf = tuple(sorted(st.var, key=repr))
+            if (pcs, ev.value, vf) not in self.vpaths:
+                self.vpaths.append((pcs, ev.value, vf))
         elif ev.kind == "store":
             self.stores.append(ev)
             self.effects.append(ev)
@@ -415,6 +603,29 @@ class Verdict:
                         return src[2]
                     return ("bin", "Sub", src[2], src[1])
                 return None
+        # `let mut left = n; while left > 0 { dec(); left -= 1 }`: the bound is the counter's initial value
+        for blk in sorted(body):
+            t = fn.blocks[blk]["term"]
+            if t["k"] != "switch":
+                continue
+            v2 = dict(val)
+            for s_ in fn.blocks[blk]["stmts"]:
+                if s_["k"] == "assign" and not s_["dst"]["p"] and s_["dst"]["l"] in eng.bi.dyn:
+                    v2[s_["dst"]["l"]] = eng.bi.rvalue(s_["rv"], v2)
+            c = eng.bi.operand(t["discr"], v2)
+            x = None
+            if c[0] == "bin" and c[1] in ("Gt", "Ne") and is_const(c[3], 0):
+                x = c[2]
+            elif c[0] == "bin" and c[1] == "Lt" and is_const(c[2], 0):
+                x = c[3]
+            if x is None:
+                continue
+            k = 0
+            while ((x[0] == "bin" and x[1] in ("Sub", "SubUnchecked") and is_const(x[3], 1)) or x[0] == "stepped") and k < 64:
+                x = x[2] if x[0] == "bin" else x[1]
+                k += 1
+            if counter_read(x) is None:
+                return x
         return None
 
 
@@ -458,6 +669,10 @@ class Trace:
         self.elem_arms = set()
         self.pushes = set()
         self._key_fields = None
+        self.forward_extended = False
+        self.filtered_pass = False     # some pass over an expanded table is filtered by kind
+        self.reg_kinds = set()         # kinds for which a registration site was seen (whole run)
+        self.any_expansion = False
 
     # fields of Link that its Hash / PartialEq read
     def key_fields(self):
@@ -488,6 +703,26 @@ class Trace:
 
     def on_vec(self, eng, ev, st):
         if ev.op == "pop":
+            return None
+        if ev.op == "extend" and len(ev.args) >= 2:
+            W = mk_deref(ev.args[0])
+            if not any(f[0] == "popped" and f[1] == W for f in st.flags):
+                return None
+            it = ev.args[1]
+            src = iter_source(it)
+            if src is None or src[0] != "table":
+                return None
+            self.pushes.add(ev.b)
+            eng.obl("GATE-10", "worklist-push", ev.b)
+            fake = ("call", ev.b, "core::iter::Iterator::next", (mk_ref(it) if it[0] != "ref" else it,))
+            kinds, problem = loop_kinds(self.closures, fake)
+            ks, n = self.key_fields()
+            initv = [f[3] for f in st.flags if f[0] == "wl_initk" and f[1] == W and f[2] == "kind"]
+            if "kind" in ks and (kinds is None or not initv or set(kinds) != {initv[0]}):
+                eng.violate("GATE-10", "worklist-key-not-canonical:kind", "the visited set de-duplicates on Link.kind as well as the pointer, but links of kind %s are appended to the worklist here (initial element: %s): one object can be expanded once per kind value" % (
+                    "/".join(KIND_NAMES.get(k, k) for k in sorted(kinds)) if kinds else "unknown", KIND_NAMES.get(initv[0], "?") if initv else "?"), ev.b, st)
+            if kinds is not None and "0" in kinds:
+                self.forward_extended = True
             return None
         if ev.op == "push" and len(ev.args) >= 2:
             W = mk_deref(ev.args[0])
@@ -548,10 +783,15 @@ class Trace:
             if src is not None and src[0] == "table":
                 tb = src[1]
                 if any(f[0] == "expanded" and f[2] == tb for f in st.flags):
-                    E = mk_field(("variant", inner, "Some", 1), "0", "")
-                    if src[-1]:
-                        eng.violate("GATE-7", "table-iteration-restricted:%s" % src[-1][0][0], "the trace walks an expanded node's link table through `%s`: entries that are skipped are invisible to the orphan test" % src[-1][0][0], b, st)
                     eng.obl("GATE-7", "table-element", b)
+                    if src[-1] or src[2] not in ("iter", "into_iter"):
+                        kinds, problem = loop_kinds(self.closures, inner)
+                        if kinds is None:
+                            eng.violate("GATE-7", "table-iteration-restricted:%s" % problem, "the trace walks an expanded node's link table through `%s` with a condition that is not a pure test of the link kind: entries that are skipped are invisible to the orphan test" % problem, b, st)
+                            kinds = frozenset()
+                        self.filtered_pass = True
+                        return add(st, ("loopk", inner[1], kinds))
+                    E = mk_field(("variant", inner, "Some", 1), "0", "")
                     return add(st, ("elem_pending", E, b))
         return None
 
@@ -574,6 +814,7 @@ class Trace:
             key = ev.args[1] if len(ev.args) > 1 else None
             if key is None:
                 return None
+            self._note_registration(eng, st, key)
             for f in list(st.flags):
                 if f[0] == "elem_pending":
                     E = f[1]
@@ -636,11 +877,48 @@ class Trace:
                     return None
         return None
 
+    def _note_registration(self, eng, st, key):
+        """Which link kinds does this keyed write into the result map cover?  (whole-run coverage for
+        traces that walk a table in several kind-filtered passes)"""
+        link = key
+        if link[0] == "ref":
+            link = link[1]
+        if link[0] == "agg" and link[2] == LINK:
+            p_ = dict(link[5]).get("ptr")
+            if p_ is not None and p_[0] == "field" and p_[2] == "ptr":
+                link = p_[1]
+        eo = elem_of(link)
+        if eo is None:
+            return
+        src = iter_source(eo[1])
+        if src is None or src[0] != "table" or not any(f[0] == "expanded" and f[2] == src[1] for f in st.flags):
+            return
+        kv = st.variant(mk_field(link, "kind", LINK))
+        if kv is not None:
+            self.reg_kinds.add(kv)
+            return
+        site = None
+        for f in st.flags:
+            if f[0] == "loopk" and mentions(link, lambda x, n=f[1]: x[0] == "call" and x[1] == n):
+                self.reg_kinds |= set(f[2])
+                return
+        self.reg_kinds |= set(ALL_KINDS)
+
+    def finish(self, eng):
+        if self.filtered_pass and self.any_expansion:
+            missing = sorted(ALL_KINDS - self.reg_kinds)
+            for k in missing:
+                key = ("GATE-7", "entry-kind-ignored:%s" % KIND_NAMES.get(k, k))
+                if key not in eng.violations:
+                    eng.violations[key] = {"rule": "GATE-7", "key": key[1], "msg": "the trace walks an expanded node's link table in kind-filtered passes, and no pass registers %s entries in the result map: the orphan test cannot see those objects" % KIND_NAMES.get(k, k),
+                                           "where": eng.where(0), "entry": eng.name, "path": []}
+
     def on_borrow(self, eng, ev, st):
         if ev.box is None:
             return None
         for f in st.flags:
             if f[0] == "popped" and ev.box == mk_field(f[2], "ptr", LINK):
+                self.any_expansion = True
                 P = f[2]
                 self.expansions.add(ev.b)
                 eng.obl("GATE-9", "expansion", ev.b)
@@ -740,6 +1018,13 @@ class Adaptors:
     def __init__(self, closures):
         self.closures = closures
 
+    def on_call_result(self, eng, st, b, t, res):
+        if res[0] == "call" and res[2] == "core::iter::Iterator::next" and res[3]:
+            ae = adapted_elem(self.closures, res)
+            if ae is not None and ae[2]:
+                return ("optpay", res, ae[0])
+        return None
+
     def on_next_some(self, eng, st, nextcall):
         from interp import classes_for, ALL, fz
         src = iter_source(nextcall[3][0])
@@ -749,7 +1034,8 @@ class Adaptors:
         if not adaptors:
             return None
         # element as seen by the consumer
-        E = mk_field(("variant", nextcall, "Some", 1), "0", "")
+        ae = adapted_elem(self.closures, nextcall)
+        E = ae[0] if (ae is not None and ae[2]) else mk_field(("variant", nextcall, "Some", 1), "0", "")
         # adaptors are listed outermost first; only filters directly producing E are handled
         name, cargs = adaptors[0]
         if name != "filter" or not cargs:
